@@ -301,11 +301,12 @@ bool Instance::eval(const size_t argc, char* const* argv) {
         // empty strings are ignored
         if (!v[0]) continue;
         // number?
-        int n = atoi(v);
+        // (64 bits, as everywhere else a decimal literal is read: with atoi, exec 2147483648 pushed the five bytes 21 47 48 36 48)
+        long long n = atoll(v);
         if (n != 0) {
             // verify
-            char buf[vlen + 1];
-            snprintf(buf, vlen + 1, "%d", n);
+            char buf[32];
+            snprintf(buf, sizeof(buf), "%lld", n);
             if (!strcmp(buf, v)) {
                 // verified; is it > 3 chars and can it be a hexstring too?
                 if (vlen > 3 && !(vlen & 1)) {
@@ -316,7 +317,7 @@ bool Instance::eval(const size_t argc, char* const* argv) {
                     }
                 }
                 // can it be an opcode too?
-                if (n < 16) {
+                if (n >= 1 && n <= 16) {
                     if (VALUE_WARN) btc_logf("warning: ambiguous input %s is interpreted as a numeric value (%s), not as an opcode (OP_%s). Use OP_%s to force into op code interpretation\n", v, v, v, v);
                 }
 
